@@ -91,6 +91,8 @@ type Actor struct {
 	Wallet *Wallet
 	Conn   *Conn
 	Policy HostPolicy
+	// AckValue: the host's agent answers instructions with a value (true) instead of null - an acknowledgement all the same
+	AckValue bool
 }
 
 // HostPolicy says how a host answers reverse calls.
@@ -195,11 +197,19 @@ func (h *HostSvc) handle(ctx context.Context, method, nodeID string) error {
 	return err
 }
 
-func (h *HostSvc) Whitelist(ctx context.Context, nodeID string) error {
-	return h.handle(ctx, "whitelist", nodeID)
+func (h *HostSvc) Whitelist(ctx context.Context, nodeID string) (interface{}, error) {
+	return h.ack(h.handle(ctx, "whitelist", nodeID))
 }
-func (h *HostSvc) Disconnect(ctx context.Context, nodeID string) error {
-	return h.handle(ctx, "disconnect", nodeID)
+func (h *HostSvc) Disconnect(ctx context.Context, nodeID string) (interface{}, error) {
+	return h.ack(h.handle(ctx, "disconnect", nodeID))
+}
+
+// ack: what a successful instruction is answered with (null, as the repository's agent does, or a value).
+func (h *HostSvc) ack(err error) (interface{}, error) {
+	if err == nil && h.a.AckValue {
+		return true, nil
+	}
+	return nil, err
 }
 
 func short10(x string) string {
